@@ -300,7 +300,9 @@ def extract(ctx):
     if gh is None:
         P.add('TargetRegistry.get_handler not found')
     else:
-        # the memo protocol of get_handler in canonical form: key, membership test, return, store.
+        # the memo protocol of get_handler in canonical form, in execution order:
+        #   key; `if key not in memo {` guard (raise before storing) store `}`; read; guard (a remembered False
+        #   raises as well); return.
         # Equivalent spellings are normalised: a key component that is a local assigned once
         # (`obj_type = type(obj)`) is resolved, so `(type(obj), op)` and `(obj_type, op)` are the same key;
         # the stored value is "the result of the uncached lookup" whether it is a local (`ret`) or the
@@ -314,26 +316,69 @@ def extract(ctx):
             if isinstance(e, ast.Name) and len(local_defs.get(e.id, [])) == 1:
                 return ast.unparse(local_defs[e.id][0])
             return ast.unparse(e)
-        keys, tests, rets, stores = [], [], [], []
-        for n in ast.walk(gh):
-            if isinstance(n, ast.Assign) and ast.unparse(n.targets[0]) == 'cache_key':
-                v = n.value
-                if isinstance(v, ast.Tuple) and len(v.elts) == 2 and [resolve(x) for x in v.elts] == ['type(obj)', 'op']:
-                    keys.append('cache_key = (obj_type, op)')
-                    key_type_src = 'obj_type = type(obj)'
-                else:
-                    keys.append(ast.unparse(n))
-            if isinstance(n, ast.If) and '_type_cache' in ast.unparse(n.test):
-                tests.append('if ' + ast.unparse(n.test))
-            if isinstance(n, ast.Return):
-                rets.append(ast.unparse(n))
-            if isinstance(n, ast.Assign) and ast.unparse(n.targets[0]) == 'self._type_cache[cache_key]':
-                v = n.value
-                computed = isinstance(v, ast.Name) or (
-                    isinstance(v, ast.Call) and isinstance(v.func, ast.Attribute)
-                    and isinstance(v.func.value, ast.Name) and v.func.value.id == 'self')
-                stores.append('self._type_cache[cache_key] = ret' if computed else ast.unparse(n))
-        gh_shape = keys + tests + rets + stores
+        import re
+
+        def is_guard(n):
+            """`if <name> is False and raise_exc: raise UnregisteredTarget(...)`"""
+            return (isinstance(n, ast.If) and not n.orelse and len(n.body) == 1 and isinstance(n.body[0], ast.Raise)
+                    and re.match(r'^\w+ is False and raise_exc$', ast.unparse(n.test)) is not None
+                    and 'UnregisteredTarget' in ast.unparse(n.body[0]))
+
+        def computed(v):
+            return isinstance(v, ast.Name) or (
+                isinstance(v, ast.Call) and isinstance(v.func, ast.Attribute)
+                and isinstance(v.func.value, ast.Name) and v.func.value.id == 'self')
+
+        def find_helper_guard(v):
+            """the stored value is `self.<m>(...)`: does <m> end with the guard before returning (a raising miss
+            stores nothing because the call is evaluated before the store)?"""
+            if not (isinstance(v, ast.Call) and isinstance(v.func, ast.Attribute)):
+                return False
+            fn = find_def(tree, v.func.attr, cls='TargetRegistry')
+            if fn is None:
+                return False
+            body = [x for x in fn.body if not (isinstance(x, ast.Expr) and isinstance(getattr(x, 'value', None), ast.Constant))]
+            return len(body) >= 2 and is_guard(body[-2]) and isinstance(body[-1], ast.Return) \
+                and isinstance(body[-1].value, ast.Name)
+
+        events = []
+
+        def walk(stmts):
+            for n in stmts:
+                if isinstance(n, ast.Assign) and ast.unparse(n.targets[0]) == 'cache_key':
+                    v = n.value
+                    nonlocal_key = isinstance(v, ast.Tuple) and len(v.elts) == 2 and \
+                        [resolve(x) for x in v.elts] == ['type(obj)', 'op']
+                    events.append('cache_key = (obj_type, op)' if nonlocal_key else ast.unparse(n))
+                    if nonlocal_key:
+                        key_box.append('obj_type = type(obj)')
+                elif isinstance(n, ast.If) and ast.unparse(n.test) == 'cache_key not in self._type_cache' and not n.orelse:
+                    events.append('if cache_key not in self._type_cache {')
+                    walk(n.body)
+                    events.append('}')
+                elif is_guard(n):
+                    events.append('guard')
+                elif isinstance(n, ast.Assign) and ast.unparse(n.targets[0]) == 'self._type_cache[cache_key]':
+                    if computed(n.value) and isinstance(n.value, ast.Call):
+                        # the miss is computed by a helper method: its guard runs before the store
+                        events.extend(['guard'] if find_helper_guard(n.value) else [])
+                    events.append('store' if computed(n.value) else ast.unparse(n))
+                elif isinstance(n, ast.Assign) and ast.unparse(n.value) == 'self._type_cache[cache_key]' \
+                        and isinstance(n.targets[0], ast.Name):
+                    events.append('read')
+                elif isinstance(n, ast.Return):
+                    src = ast.unparse(n)
+                    events.append('return' if isinstance(n.value, ast.Name) else
+                                  'return-read' if src == 'return self._type_cache[cache_key]' else src)
+                elif isinstance(n, (ast.If, ast.Try, ast.For, ast.While, ast.With)):
+                    if '_type_cache' in ast.unparse(n):
+                        events.append('other: ' + ' '.join(ast.unparse(n).split())[:80])
+                elif '_type_cache' in ast.unparse(n):
+                    events.append('other: ' + ' '.join(ast.unparse(n).split())[:80])
+        key_box = []
+        walk(gh.body)
+        gh_shape = events
+        key_type_src = key_box[0] if key_box else ''
     resets = []
     for name in ('register', 'register_op'):
         fn = find_def(tree, name, cls='TargetRegistry')
